@@ -84,6 +84,18 @@ def holders():
                                         "var g = mk();\nchurn();\nprint(RD(g()));\nchurn();\nprint(RD(g()));\n")
     h["upvalue_other_fiber_written"] = ("fn mk() { var fb = Fiber.new(|| { var t = 0; Fiber.yield(|v| { t = v; return t; }); return 0; }); return fb.call(); }\n"
                                         "var g = mk();\nchurn();\nprint(RD(g(MK)));\nchurn();\n")
+    # several locals of an abandoned, suspended fiber captured in descending / mixed slot order: every
+    # open upvalue (list head or spliced behind it) has to keep the fiber's stack alive
+    h["upvalue_other_fiber_second_capture"] = (
+        "fn mk() { var fb = Fiber.new(|| { var t = MK; var u = [7]; var gu = || u; var gt = || t; Fiber.yield(gt); return gu; }); return fb.call(); }\n"
+        "var g = mk();\nchurn();\nprint(RD(g()));\nchurn();\nprint(RD(g()));\n")
+    h["upvalue_other_fiber_middle_capture"] = (
+        "fn mk() { var fb = Fiber.new(|| { var a = [1]; var t = MK; var z = [3]; var gz = || z; var ga = || a; var gt = || t; "
+        "Fiber.yield([gt, ga]); return gz; }); return fb.call(); }\n"
+        "var g = mk();\nchurn();\nprint(RD(g[0]()));\nprint(g[1]());\nchurn();\nprint(RD(g[0]()));\n")
+    h["upvalue_other_fiber_nested_frames"] = (
+        "fn mk() { var fb = Fiber.new(|| { var t = MK; fn inner() { var w = [9]; var gw = || w; Fiber.yield(|| t); return gw; } return inner(); }); return fb.call(); }\n"
+        "var g = mk();\nchurn();\nprint(RD(g()));\nchurn();\nprint(RD(g()));\n")
     h["vec_elem"] = "var g = [1, MK, 3];\nchurn();\nprint(RD(g[1]));\n"
     h["vec_pushed"] = "var g = [];\ng.push(MK);\nchurn();\nprint(RD(g[0]));\n"
     h["tuple_elem"] = "var g = (1, MK);\nchurn();\nprint(RD(g[1]));\n"
